@@ -56,6 +56,14 @@ func (dec *Decoder) fastReadStringAsBytes(utf16Length int) (data []byte) {
 			return
 		}
 	}
+	if off > len(buf) {
+		// a 4-byte character where the announced length left room for one
+		// UTF-16 unit only: the length is wrong and the character may be cut
+		if dec.Error == nil {
+			dec.Error = ErrInvalidUTF8
+		}
+		off = len(buf)
+	}
 	dec.head += off
 	return buf[:off]
 }
@@ -89,7 +97,9 @@ func (dec *Decoder) readStringAsBytes(utf16Length int) (data []byte, safe bool) 
 		}
 		if !safe {
 			safe = true
-			data = make([]byte, 0, utf16Length*3)
+			if utf16Length > 0 {
+				data = make([]byte, 0, utf16Length*3)
+			}
 		}
 		data = append(data, buf...)
 		// -remains bytes of the last character lie beyond this buffer; the
